@@ -193,7 +193,7 @@ pub fn gen_world(rng: &mut Rng, prop: &str) -> WorldCfg {
         }
     };
     let liq_fee = ratio_choice(rng, d, &[(0, 1), (125, 4), (500, 4), (1000, 2)]);
-    let want_fluct = matches!(prop, "C15") || rng.chance(3, 10);
+    let want_fluct = matches!(prop, "C15") || rng.chance(if matches!(prop, "C04" | "C11" | "C12" | "C02") { 5 } else { 3 }, 10);
     let partial = if prop == "C15" || want_fluct {
         ratio_choice(rng, d, &[(2500, 4), (5000, 2), (9900, 1), (10000, 1), (0, 1)])
     } else {
@@ -544,7 +544,43 @@ impl Gen {
         Some(st)
     }
 
+    /// solved tactic: push the oracle far from the vAMM price, let a funding period pass, settle, then have a position
+    /// holder act on their position (funding owed of the order of the margin)
+    fn gen_funding_drain(&mut self, r: &mut Runner, rng: &mut Rng) -> Option<Step> {
+        let holders: Vec<(usize, String)> = r.obs.pos.iter().filter(|(_, p)| p.size != 0).map(|(k, _)| k.clone()).collect();
+        if holders.is_empty() {
+            return None;
+        }
+        let (v, t) = rng.pick(&holders).clone();
+        let pos = r.obs.position(v, &t)?.clone();
+        let vo = r.obs.vamms[v].clone();
+        // funding owed per settlement ~ (twap - oracle) * period/day * size: aim at 2%..60% of the notional
+        let pct: u128 = *rng.pick(&[2u128, 5, 10, 20, 40, 60]);
+        let day_frac_num = vo.funding_period.max(1) as u128;
+        let gap = mul_div(vo.spot, pct * 86400, 100 * day_frac_num).unwrap_or(vo.spot / 2).min(vo.spot.saturating_mul(5));
+        // longs pay when the vAMM trades above the oracle
+        let against_holder = rng.chance(3, 4);
+        let oracle_below = (pos.size > 0) == against_holder;
+        let price = if oracle_below { vo.spot.saturating_sub(gap).max(1) } else { vo.spot.saturating_add(gap) };
+        let now = r.w.now();
+        let act = match rng.below(4) {
+            0 => Op::Withdraw { vamm: v, amount: (pos.margin / 4).max(1) },
+            _ => Op::Close { vamm: v, limit: 0 },
+        };
+        self.plan.push(Step::new(&t, act));
+        let mut pf = Step::new("keeper", Op::PayFunding { vamm: v });
+        pf.clock = Some((1, vo.funding_period.max(60) + *rng.pick(&[0u64, 1, 60])));
+        self.plan.push(pf);
+        let owner = r.obs.pf_owner.clone();
+        Some(Step::new(&owner, Op::AppendPrice { vamm: v, price, timestamp: now }))
+    }
+
     fn gen_keeper(&mut self, r: &mut Runner, rng: &mut Rng) -> Step {
+        if matches!(self.profile.prop.as_str(), "C04" | "C11" | "C05" | "C03") && rng.chance(1, 5) {
+            if let Some(st) = self.gen_funding_drain(r, rng) {
+                return st;
+            }
+        }
         if matches!(self.profile.prop.as_str(), "C06" | "C07" | "C05" | "C16") && rng.chance(1, 6) {
             if let Some(st) = self.gen_boundary(r, rng) {
                 return st;
@@ -623,6 +659,17 @@ impl Gen {
             }
         };
         let prop = self.profile.prop.clone();
+        if matches!(prop.as_str(), "C03" | "C09" | "C14") && rng.chance(1, 8) {
+            // re-point the vAMM's own insurance-fund / margin-engine fields (and back)
+            let vo = &r.obs.vamms[v];
+            let to_if = if vo.insurance_fund == r.w.addrs.insurance_fund { (*rng.pick(&["newowner", "stranger"])).to_string() } else { "@if".to_string() };
+            let (me, ifn) = if rng.chance(1, 5) {
+                (Some(if vo.margin_engine == r.w.addrs.engine { "stranger".to_string() } else { "@engine".to_string() }), None)
+            } else {
+                (None, Some(to_if))
+            };
+            return Step::new(&roles.vamm_owner[v], Op::VammConfig { vamm: v, holding_cap: None, oi_cap: None, toll: None, spread: None, fluct: None, margin_engine: me, insurance_fund: ifn, pricefeed: None, twap_interval: None });
+        }
         let choice = rng.below(if prop == "C09" || prop == "C14" { 24 } else { 18 });
         match choice {
             0 | 1 => {
@@ -856,6 +903,9 @@ impl Gen {
             return Some(Step::new(&roles.pauser, Op::SetPause { pause: false }));
         }
         for (i, v) in r.obs.vamms.iter().enumerate() {
+            if v.ok && v.margin_engine != r.w.addrs.engine {
+                return Some(Step::new(&roles.vamm_owner[i], Op::VammConfig { vamm: i, holding_cap: None, oi_cap: None, toll: None, spread: None, fluct: None, margin_engine: Some("@engine".into()), insurance_fund: None, pricefeed: None, twap_interval: None }));
+            }
             if v.ok && !v.open {
                 return Some(Step::new(&roles.vamm_owner[i], Op::SetOpen { vamm: i, open: true }));
             }
